@@ -18,7 +18,15 @@ CONTRACTS = {
     '_ZNSo5flushEv': "std::ostream::flush(): no-op",
     '_ZNKSt9basic_iosIcSt11char_traitsIcEE3badEv': "basic_ios::bad(): false",
     '__cxa_allocate_exception': "returns a fresh object of the requested size",
-    '__cxa_throw': "ends the path with outcome throws(type); cleanups are not run",
+    '__cxa_throw': "no catch clause up the IR call stack matches the thrown type (same typeinfo, base class, catch-all): ends the path with "
+                   "outcome throws(type), cleanups are not run; otherwise two-phase unwinding to the innermost landing pad (cleanup pads are executed, "
+                   "`resume` continues unwinding, `landingpad` yields {exception, selector = llvm.eh.typeid.for(clause type)})",
+    '__cxa_rethrow': "throws the exception caught last again (same resolution as __cxa_throw)",
+    '__cxa_begin_catch': "pushes the exception on the caught stack, returns the exception object",
+    '__cxa_end_catch': "pops the caught stack; the exception object dies unless it was rethrown",
+    '__cxa_get_exception_ptr': "returns the exception object",
+    '__clang_call_terminate': "ends the path with outcome terminate",
+    '_ZSt9terminatev': "ends the path with outcome terminate",
     '__cxa_free_exception': "no-op",
     '__assert_fail': "ends the path with outcome assert",
     '_ZNSt13runtime_errorC1EPKc': "std::runtime_error(const char*): records the message",
@@ -255,15 +263,31 @@ def _typeinfo_name(p):
 
 def cxa_throw(ex, argv, ins):
     exc, tinfo, dtor = argv
-    # a catch clause up the stack would need real unwinding: refuse rather than guess
-    for fr in ex.frames:
-        c = fr.call if fr is not ex.frames[-1] else ins
-        if c is not None and c.op == 'invoke':
-            lp = fr.fn.blocks[c.a[4]][0]
-            if lp.op == 'landingpad' and any(cl[0] != 'cleanup' for cl in lp.a[1]):
-                raise Unsupported("throw under a catch/filter clause")
-    raise PathEnd('throws', type=_typeinfo_name(tinfo), msg=exc.obj.meta.get('msg', '') if isinstance(exc, Ptr) and exc.obj else '',
-                  **ex._site_info())
+    msg = exc.obj.meta.get('msg', '') if isinstance(exc, Ptr) and exc.obj else ''
+    # no matching catch clause up the stack: the path ends here with outcome throws(type); otherwise control moves to
+    # the landing pad (core.Exec._eh_unwind)
+    ex.eh_throw(ex.eh_new(exc, ex.eh_tinfo_name(tinfo) or '?', _typeinfo_name(tinfo), msg))
+
+
+def cxa_rethrow(ex, argv, ins):
+    ex.eh_rethrow()
+
+
+def cxa_begin_catch(ex, argv, ins):
+    return ex.eh_begin_catch(argv[0])
+
+
+def cxa_end_catch(ex, argv, ins):
+    ex.eh_end_catch()
+    return None
+
+
+def cxa_get_exception_ptr(ex, argv, ins):
+    return argv[0]
+
+
+def call_terminate(ex, argv, ins):
+    raise PathEnd('terminate', why='std::terminate', **ex._site_info())
 
 
 def runtime_error_ctor(ex, argv, ins):
@@ -305,9 +329,13 @@ def c_memcmp(ex, argv, ins):
     return simp(z3.If(eq, z3.BitVecVal(0, 32), z3.BitVecVal(1, 32)))
 
 
+_STD_TINFO = {'std::length_error': '_ZTISt12length_error', 'std::bad_alloc': '_ZTISt9bad_alloc',
+              'std::bad_array_new_length': '_ZTISt20bad_array_new_length'}
+
+
 def throw_stub(kind):
     def f(ex, argv, ins):
-        raise PathEnd('throws', type=kind, msg='', **ex._site_info())
+        ex.eh_throw(ex.eh_new(None, _STD_TINFO[kind], kind, ''))
     return f
 
 
@@ -320,6 +348,12 @@ BASE = {
     '_ZNSo5flushEv': ostream_flush,
     '__cxa_allocate_exception': cxa_allocate_exception,
     '__cxa_throw': cxa_throw,
+    '__cxa_rethrow': cxa_rethrow,
+    '__cxa_begin_catch': cxa_begin_catch,
+    '__cxa_end_catch': cxa_end_catch,
+    '__cxa_get_exception_ptr': cxa_get_exception_ptr,
+    '__clang_call_terminate': call_terminate,
+    '_ZSt9terminatev': call_terminate,
     '__cxa_free_exception': noop,
     '__assert_fail': assert_fail,
     '_ZNSt13runtime_errorC1EPKc': runtime_error_ctor,
